@@ -50,6 +50,11 @@ fn main() {
         "C05" => storemon::main(storemon::Kind::C05, &args),
         "C06" => storemon::main(storemon::Kind::C06, &args),
         "C07" => storemon::main(storemon::Kind::C07, &args),
+        "C18" => storemon::pages::main(&args),
+        "C28" => storemon::vacuum::main(&args),
+        "C30" => storemon::bulk::main(&args),
+        "C31" => storemon::vector::main(&args),
+        "C32" => storemon::ids::main(&args),
         "C25" => robust::codec::main(&args),
         "C26" => structmon::btree::main(&args),
         "C27" => structmon::keys::main(&args),
